@@ -190,7 +190,7 @@ def judge(ctx, traces, label):
 
 
 def trace_consts():
-    return {"Match": "<<>>", "Cfg": "[maxId |-> 65535, timerPhase |-> TRUE, watch0 |-> <<>>]", "Sw": "AllOff"}
+    return {"Match": "<<>>", "Cfg": "[maxId |-> 65535, timerPhase |-> TRUE] @@ CfgDefault", "Sw": "AllOff"}
 
 
 def check(ctx):
